@@ -70,13 +70,17 @@ def tasksTok (q : List (Bool × Wid)) : String :=
 /-- does MW.Spec.Pending apply to this instance now?  (every wallet ready and not flagged, none ever imported) -/
 def pendSpecOn (i : Inst) : Bool :=
   !i.pendOff && i.led.store.status.all (fun e => e.2.synced.isNone && !e.2.removed) &&
-  -- a transaction that spends a COINBASE coin paid to an address of a removed wallet: the specification purges it
-  -- when that coinbase is orphaned, the code cannot (Rollback finds the spenders of an orphaned coinbase through
-  -- the coinbase's tx and credit records, which do not exist for a wallet that is gone).  With the consensus
+  -- a transaction that spends a COINBASE coin paid to an address that is not (or no longer) of a wallet of this
+  -- instance (a stranger, a wallet of the other instance, a removed wallet): the specification purges it when that
+  -- coinbase is orphaned, the code cannot (Rollback finds the spenders of an orphaned coinbase through the
+  -- coinbase's tx and credit records, which exist for the wallets' own coinbases only).  With the consensus
   -- maturity (1000) this needs a reorganisation deeper than 1000 blocks; with the harness's it is reachable.
+  -- Reported to C09 (notes/C08.md, "orphaned foreign coinbase"); the spec column is left out for such histories.
   !(i.led.txs.any (fun e => !e.2.cb && e.2.ins.any (fun inp =>
       match AMap.get i.led.txs inp.tx with
-      | some p => p.cb && (match p.outs[inp.idx]? with | some o => i.goneAddrs.contains o.addr | none => false)
+      | some p => p.cb && (match p.outs[inp.idx]? with
+          | some o => i.goneAddrs.contains o.addr || (AMap.get i.led.own o.addr).isNone
+          | none => false)
       | none => false)))
 
 /-- a follower event (tip notification, unconfirmed transaction) handled while some wallet of the instance has a keystore
